@@ -82,10 +82,18 @@ CHECKS = {
        "unique_violated_after_delete. Tie: statement outcomes (ok/error class, affected rows) of generated histories vs the Lean driver (autocommit, explicit tx; on "
        "indexed tables single-row statements). ORACLE (Go, model independent): after EVERY committed transaction full scans through the primary and every secondary "
        "index: same rows through every index, PK unique, UNIQUE duplicate free, NOT NULL, lengths, CHECK, equals a textbook reference interpreter; must-fail statements "
-       "fail; failed statements / rolled back / conflicting transactions leave no trace; 1..4 interleaved sessions (deterministic) and real goroutines.",
+       "fail; failed statements / rolled back / conflicting transactions leave no trace; 1..4 interleaved sessions (deterministic) and real goroutines. "
+       "CONCURRENT SESSIONS (c12_race.go, model Sql/Sessions.lean): theorems unique_writes_are_probed (in every schedule every unique tuple an open transaction wrote is "
+       "covered by a recorded 'nothing under this prefix' read), stale_unique_lookup_conflicts (such a read is invalidated at COMMIT by any live first entry under the prefix: "
+       "ErrTxReadConflict), unique_race_second_committer_fails_partial, witnesses concurrent_insert_insert_conflict / concurrent_update_insert_conflict; tie: statement outcomes, "
+       "COMMIT decisions (ok / read conflict) and the committed rows of scheduled interleavings of 2-4 sessions vs the Lean model of per-index snapshots + read-set + "
+       "checkPreconditions; oracle: every acknowledged transaction replayed on the reference AT ITS COMMIT POINT must be valid there (of two overlapping writers of one unique "
+       "tuple / primary key at least one fails), table = replay, all constraints after every commit; goroutine rounds (barrier-released autocommit statements and racing COMMITs): "
+       "at most one acknowledged writer per contended tuple, table = reference + acknowledged writes.",
   note=TB + " Modelled rather than verified: the transient index entries of an open transaction (statements writing several rows of an indexed table are kept out of the "
-       "correspondence; that behaviour is finding R1), DEFAULT values, JSON, FOREIGN KEY, ALTER TABLE, implicit INTEGER->FLOAT conversion; concurrency is not in the Lean "
-       "model (MVCC of the store, C05) — the harness exercises it. Known signatures for root causes R1, R2, R3, R4, R9 (known_findings.json).",
+       "correspondence; that behaviour is finding R1), DEFAULT values, JSON, FOREIGN KEY, ALTER TABLE, implicit INTEGER->FLOAT conversion; the concurrent-session model covers statements addressed by primary key with every row / unique tuple written once per transaction "
+       "(the early `return nil` of checkPreconditions and non-default snapshot options are C05's), duplicate freedom of every reachable store is NOT proved (false in general: R2) "
+       "— the harness checks it. Known signatures for root causes R1, R2, R3, R4, R9 (known_findings.json).",
   technique="Lean 4 proof (invariant preservation by induction over the statement interpreter; concrete witnesses by kernel evaluation) + differential correspondence + invariant checking after every commit",
   design="7/C12"),
  "C11": dict(
